@@ -65,6 +65,12 @@ def build_universe(cfg, keys):
     return w, g, blocks, txs
 
 
+def netmsg_frame_block(block, mid, ts):
+    from harness import netmsg
+    from skepticoin.networking.messages import DataMessage, DATA_BLOCK
+    return netmsg.frame(netmsg.body(DataMessage(DATA_BLOCK, block), mid, 0, ts=ts))
+
+
 def to_ledger_blk(obs):
     """Observed block (TraceLedger JSON form) -> Ledger.tla record literal (powok precomputed)."""
     d = dict(obs)
@@ -638,6 +644,45 @@ def run(pid, tier, replay=None):
                 t = ptraces[t_id - 1]
                 chk.violation(clause, {"state_replaced_before_line_stop": t["k"], "of": t["of"], "second_thread_waited_for_the_lock": t["blocked"],
                                        "observed": {k2: t[k2] for k2 in ("pool_has_t", "head_is_new")}, "errors": t["errors"]}, {"clause": clause})
+    if pid == "C09":
+        # ---- an operating-system fault on one connection at relay time: its descriptor is dead under the node (closed / not registered any
+        #      more, while the peer book still lists it); an accepted new head still reaches every other peer exactly once
+        sk.apply_cfg(cfg)
+        rfacts = []
+        for fault in ("closed_socket", "selector_rejects"):
+            w_r, g_r, blocks_r, txs_r = build_universe(cfg, keys)
+            run_r = node_drv.NodeRun(w_r, g_r, peers=["p", "q", "r", "s"], tid=950000, clock0=5000)
+            try:
+                peer_q, sock_q = run_r.node.peers["q"]
+                if fault == "closed_socket":
+                    sock_q.closed = True                  # closed under the node: send / modify on it fail with EBADF
+                sel = run_r.node.local.selector
+                o_modify = sel.modify
+
+                def modify(fileobj, events, data=None, o_modify=o_modify, sock_q=sock_q):
+                    if fileobj is sock_q:
+                        raise ValueError("Invalid file descriptor: -1") if fault == "selector_rejects" else OSError(9, "Bad file descriptor")
+                    return o_modify(fileobj, events, data)
+                sel.modify = modify
+                for name_ in ("p", "r", "s"):
+                    run_r.node.take_sent(name_)
+                run_r.node.use_store()
+                run_r.node.deliver("p", netmsg_frame_block(blocks_r[1], 8801, run_r.clock()))
+                run_r.node.pump_writes()
+                copies = {}
+                for name_ in ("r", "s"):
+                    copies[name_] = sum(1 for (h_, m_) in run_r.node.take_sent(name_) if type(m_).__name__ == "DataMessage" and type(m_.data).__name__ == "Block"
+                                        and m_.data.hash() == blocks_r[1].hash())
+                accepted = blocks_r[1].hash() in run_r.node.chain().block_by_hash
+                rfacts.append({"clause": "C09:new_head_not_relayed_exactly_once", "holds": (not accepted) or all(v_ == 1 for v_ in copies.values()),
+                               "what": "one connection dead at relay time (%s): copies to the healthy peers %s, accepted %s" % (fault, copies, accepted)})
+                chk.case(("dead_peer_at_relay", fault), nontrivial=True)
+            finally:
+                run_r.close()
+        vr, rr = tracecheck.run("TraceFacts", rfacts, {}, ids=[1], workers=1, timeout=300)
+        chk.traces_validated += 1
+        for (line, clause) in tlc.tagged(rr, "FINDING"):
+            chk.violation(clause, {"run": rfacts[line - 1]["what"]}, {"clause": clause, "how": "dead_peer"})
     if pid in ("C09", "C12"):
         # ---- the relay path and the miner are the two writers of the block store's buffer (StoreLock)
         from checks import store as store_check
